@@ -129,8 +129,23 @@ SOURCES = [
     "local l = import 'lib.libsonnet'; l.badmap[0]",
     "local l = import 'lib.libsonnet'; std.objectRemoveKey(l.selfobj, 'a').n",
     "local l = import 'lib.libsonnet'; l.selfobj.b",
+    # 78.. names computed at run time: whether such a string was ever interned depends on which other sources were loaded before
+    "{ a: super['zq' + 'x'] }.a",
+    "{ zqx: 1, zqy:: 2, zqw: 3, zqv: 4, zqu: 5, zqt: 6 }",
+    "({ b: 1 } + { a: super['zq' + 'y'] }).a",
+    "({ zqy: 1 } + { a: super['zq' + 'y'] }).a",
+    "{ a: 1 }['zq' + 'w']",
+    "('zq' + 'v') in {}",
+    "{ a: ('zq' + 'u') in super }.a",
+    "std.get({}, 'zq' + 't', 'dflt')",
+    "std.objectHasAll({ zqy:: 1 }, 'zq' + 'y')",
+    "{ ['zq' + 'x']: 1 }",
+    "function(x) x['zq' + 'x']",
+    "std.extVar('zq' + 'x')",
+    "std.objectHas({}, 'zq' + 'v')",
+    "local o = { a: super['zq' + 'x'], zqx: 1 }; [o.zqx, std.objectHas(o, 'zq' + 'x')]",
 ]
-FUNCS = {20, 21, 22, 23, 49}
+FUNCS = {20, 21, 22, 23, 49, 88}
 STACKS = [5, 20, 45, 60, 130, 500]
 OPS = ["load", "load", "eval", "eval", "eval_again", "call", "manifest", "manifest", "gc", "stack", "drop"]
 
@@ -148,6 +163,7 @@ THEMES = [
     [50, 51, 52, 63, 64, 65, 66, 67, 74],               # arrays / objects built by builtins and comprehensions with failing elements
     [55, 56, 57, 58, 59, 60, 61, 62, 68, 69, 70, 76, 77],   # objects derived from a shared self-referential object
     [71, 72, 73, 5, 6, 4],                              # arrays derived from shared arrays (elements are shared thunks)
+    [78, 79, 80, 81, 82, 83, 84, 85, 86, 87, 88, 89, 90, 91],   # run-time names vs names interned by other sources
     list(range(len(SOURCES))),
 ]
 
